@@ -91,11 +91,11 @@ WRAP_AVX2 = ["set_avx", "load_avx", "load_avx_a", "store_avx", "store_avx_a", "c
 WRAP_AVX512 = ["load_avx512", "load_avx512_a", "store_avx512", "store_avx512_a", "copy_avx512",
                "add_avx512", "sub_avx512", "mul_avx512"]
 MODULES += [
-    {"name": "WrapBatch", "sigs": True, "ns": "Gen.WrapBatch", "imports": VEC_IMPORTS, "needs_globals": True,
+    {"name": "WrapBatch", "sigs": True, "scalar_alias": True, "ns": "Gen.WrapBatch", "imports": VEC_IMPORTS, "needs_globals": True,
      "roots": [("Goldilocks", n) for n in WRAP_BATCH]},
-    {"name": "WrapAvx2", "sigs": True, "ns": "Gen.WrapAvx2", "imports": VEC_IMPORTS + ["GoldilocksVerif.Gen.Avx2", "GoldilocksVerif.Gen.Avx2Mat"], "needs_globals": True,
+    {"name": "WrapAvx2", "sigs": True, "scalar_alias": True, "ns": "Gen.WrapAvx2", "imports": VEC_IMPORTS + ["GoldilocksVerif.Gen.Avx2", "GoldilocksVerif.Gen.Avx2Mat"], "needs_globals": True,
      "roots": [("Goldilocks", n) for n in WRAP_AVX2]},
-    {"name": "WrapAvx512", "sigs": True, "ns": "Gen.WrapAvx512", "imports": VEC_IMPORTS + ["GoldilocksVerif.Gen.Avx512", "GoldilocksVerif.Gen.Avx512Mat", "GoldilocksVerif.Gen.PosAvx512"], "needs_globals": True,
+    {"name": "WrapAvx512", "sigs": True, "scalar_alias": True, "ns": "Gen.WrapAvx512", "imports": VEC_IMPORTS + ["GoldilocksVerif.Gen.Avx512", "GoldilocksVerif.Gen.Avx512Mat", "GoldilocksVerif.Gen.PosAvx512"], "needs_globals": True,
      "roots": [("Goldilocks", n) for n in WRAP_AVX512]},
 ]
 
